@@ -69,6 +69,9 @@ func C10(o *world.Obs) *Result {
 		_, fromStore := o.FromStore(ex)
 		// a failing store read means the request is served by the origin
 		for _, op := range faultFired[ex.Idx] {
+			if op.Gid != ex.Gid {
+				continue // background work that happened to run before RoundTrip returned
+			}
 			if op.Op == "get" && (op.Fault == "err" || op.Fault == "notexist") && fromStore {
 				r.Fail("C10", "served-from-store-despite-read-failure", ex.Idx, "store Get of %q failed (%s) in this exchange, yet the response comes from the store; %s", op.Key, op.Fault, SummarizeExchange(o, ex))
 			}
